@@ -1,6 +1,6 @@
 (** The translated [pageEntries] (tx_bptree.go; sparse-mode paging of PrefixScan /
     PrefixSearchScan after fix 7531a1a) is the specification's skip / filter / take. *)
-From Coq Require Import List ZArith Lia Bool.
+From Coq Require Import List ZArith Lia Bool ZifyBool.
 From Verif Require Import Bytes BytesFacts.
 From VerifGo Require Import GoSem.
 From VerifGen Require Import GoPage.
@@ -40,7 +40,9 @@ Proof.
   rewrite skipn_length. unfold zlen in *. lia.
 Qed.
 
-(** a range loop that breaks once [lim] (when it is not -1) elements are collected and
+(** (the first form of the loop lemma, which fixes the shape of the test and of the state
+    update; [go_pageEntries_eq] now uses [grange_page_sem] below, this one is kept for reference)
+    a range loop that breaks once [lim] (when it is not -1) elements are collected and
     otherwise appends the elements satisfying [keep]: whatever else the loop state carries
     (invariant [P]), the collected list [get s] grows by the first elements of the filter *)
 Definition page_take {A} (keep : A -> bool) (lim : Z) (have : Z) (l : list A) : list A :=
@@ -95,6 +97,232 @@ Proof.
     replace (Z.to_nat lim) with O by lia. reflexivity.
 Qed.
 
+(** ---- proofs that do not depend on the way the Go source writes its tests ----
+
+    The theorem below is re-checked against a fresh translation of tx_bptree.go on every
+    change.  It must fail when the behaviour of pageEntries changes and only then, so it
+    never mentions the shape of a condition, a generated name (t1, lo2, st3), the order of
+    independent statements or the components of a loop state:
+    - [go_case] picks an [if] of the goal whose test is closed and case-splits on one of its
+      ATOMIC tests (descending through [&&], [||], [negb]); [go_cases] repeats this and lets
+      [lia] (with ZifyBool: it reads [a <? b = true], [negb], ... directly) discard the
+      impossible combinations.  [len(x) == 0] against [len(x) < 1], [a < b] against [b > a],
+      operand order, negated tests with exchanged branches all end in the same leaves;
+    - the loop lemma [grange_page_sem] is generic in the body and in the loop state: it asks,
+      for every element and state, that the body yields a break or a next state whose
+      collected list is the expected one — proved by [go_cases], whatever the nesting of the
+      tests, early [continue]s or temporaries;
+    - the projection of the collected list out of the loop state and the invariant on the
+      other components (the regexp travels in the state) are computed from the TYPE of the
+      state ([mk_get], [mk_inv]). *)
+Ltac bool_atom c :=
+  lazymatch c with
+  | andb ?a ?b => first [bool_atom a | bool_atom b]
+  | orb ?a ?b => first [bool_atom a | bool_atom b]
+  | negb ?a => bool_atom a
+  | true => fail
+  | false => fail
+  | context [if ?d then _ else _] => bool_atom d
+  | _ => destruct c eqn:?
+  end.
+
+Ltac go_simpl := cbn [andb orb negb gbind fst snd rx_is_nil grx_match err_is_nil app].
+
+Ltac go_case :=
+  match goal with
+  | |- context [if ?c then _ else _] => bool_atom c; go_simpl
+  end.
+
+Ltac go_cases := repeat (go_case; try (exfalso; first [lia | congruence])).
+
+Lemma zlen_cons1 : forall {A} (x : A) l, zlen (x :: l) = zlen l + 1.
+Proof. intros A x l. unfold zlen. cbn [length]. lia. Qed.
+
+(** l[lo:hi] with hi = len(l) *)
+Lemma gslice_tail' : forall {A} (l : list A) o h, 0 <= o <= zlen l -> h = zlen l ->
+  gslice l o h = GOk (skipn (Z.to_nat o) l).
+Proof. intros A l o h Ho Hh. subst h. apply gslice_tail. exact Ho. Qed.
+
+(** make(T, 0) *)
+Lemma gmake_0 : forall {A} (z : A), gmake z 0 = GOk [].
+Proof. reflexivity. Qed.
+
+(** the loop stops: a limit is set and reached *)
+Definition page_stop (lim have : Z) : bool := negb (lim =? -1) && (lim <=? have).
+
+(** what one round of the loop may do, in terms of the collected list [get s] only: break
+    (or go on with the collected list unchanged) once the limit is reached, otherwise go on
+    with the element appended when [keep] holds and with the collected list unchanged when not *)
+Definition page_step_ok {A S R} (get : S -> list A) (P : S -> Prop) (keep : A -> bool) (lim : Z)
+           (x : A) (s : S) (b : lstep S R) : Prop :=
+  match b with
+  | LBreak s' => page_stop lim (zlen (get s)) = true /\ P s' /\ get s' = get s
+  | LNext s' => P s' /\ get s' = (if page_stop lim (zlen (get s)) then get s
+                                  else if keep x then get s ++ [x] else get s)
+  | LRet _ => False
+  end.
+
+Lemma grange_page_sem {A S R} (body : Z -> A -> S -> gres (lstep S R))
+      (get : S -> list A) (P : S -> Prop) (keep : A -> bool) (lim : Z) :
+  forall l i s,
+  (forall k x s, nth_error l k = Some x -> P s ->
+     exists b, body (i + Z.of_nat k) x s = GOk b /\ page_step_ok get P keep lim x s b) ->
+  P s ->
+    exists s', grange body i l s = GOk (inl s') /\ P s' /\
+               get s' = get s ++ page_take keep lim (zlen (get s)) l.
+Proof.
+  induction l as [|x r IH]; intros i s Hbody HP.
+  - exists s. cbn [grange]. split; [reflexivity|]. split; [exact HP|].
+    unfold page_take. cbn [filter]. rewrite firstn_nil. destruct (lim =? -1); rewrite app_nil_r; reflexivity.
+  - cbn [grange]. destruct (Hbody O x s eq_refl HP) as [b [Hb Hok]].
+    replace (i + Z.of_nat 0) with i in Hb by lia. rewrite Hb. cbn [gbind].
+    assert (Hbody' : forall k y s0, nth_error r k = Some y -> P s0 ->
+              exists b0, body (i + 1 + Z.of_nat k) y s0 = GOk b0 /\ page_step_ok get P keep lim y s0 b0).
+    { intros k y s0 Hk HP0. replace (i + 1 + Z.of_nat k) with (i + Z.of_nat (Datatypes.S k)) by lia.
+      apply Hbody; [exact Hk|exact HP0]. }
+    pose proof (zlen_nonneg' (get s)) as Hge.
+    assert (Hstop : page_stop lim (zlen (get s)) = true ->
+                    page_take keep lim (zlen (get s)) (x :: r) = [] /\
+                    page_take keep lim (zlen (get s)) r = []).
+    { unfold page_stop, page_take. intros Hs. apply andb_true_iff in Hs. destruct Hs as [H1 H2].
+      apply negb_true_iff in H1. apply Z.leb_le in H2. rewrite H1.
+      replace (Z.to_nat (lim - zlen (get s))) with O by lia. split; reflexivity. }
+    destruct b as [s1|s1|rv]; cbn [page_step_ok] in Hok.
+    + (* next *)
+      destruct Hok as [HP1 Hget1].
+      destruct (IH (i + 1) s1 Hbody' HP1) as [s' [Hg [HPs Hgs]]].
+      exists s'. split; [exact Hg|]. split; [exact HPs|]. rewrite Hgs, Hget1.
+      destruct (page_stop lim (zlen (get s))) eqn:Hs.
+      * destruct (Hstop eq_refl) as [E1 E2]. rewrite E1, E2. reflexivity.
+      * unfold page_take. cbn [filter]. destruct (keep x) eqn:Hk; [|reflexivity].
+        rewrite zlen_app1, <- app_assoc. f_equal.
+        destruct (lim =? -1) eqn:Hl; [reflexivity|].
+        unfold page_stop in Hs. rewrite Hl in Hs. cbn [negb andb] in Hs. apply Z.leb_gt in Hs.
+        replace (Z.to_nat (lim - zlen (get s))) with (Datatypes.S (Z.to_nat (lim - (zlen (get s) + 1)))) by lia.
+        reflexivity.
+    + (* break *)
+      destruct Hok as [Hs [HP1 Hget1]]. exists s1. split; [reflexivity|]. split; [exact HP1|].
+      destruct (Hstop Hs) as [E1 _]. rewrite E1, app_nil_r. exact Hget1.
+    + contradiction.
+Qed.
+
+(** l[i] at a position known to hold x (a loop written [for i := range l { x := l[i]; ... }]) *)
+Lemma gidx_nth {A} (l : list A) k x : nth_error l k = Some x -> gidx l (0 + Z.of_nat k) = GOk x.
+Proof.
+  intros H. unfold gidx. assert (Hlt : (k < List.length l)%nat) by (apply nth_error_Some; congruence).
+  replace ((0 <=? 0 + Z.of_nat k) && (0 + Z.of_nat k <? zlen l)) with true
+    by (symmetry; apply andb_true_intro; split; [apply Z.leb_le|apply Z.ltb_lt]; unfold zlen; lia).
+  replace (Z.to_nat (0 + Z.of_nat k)) with k by lia. rewrite H. reflexivity.
+Qed.
+
+(** the component of a loop state that holds the collected entries, and the invariant "every
+    component that is a regexp is [rgx]", from the type of the state *)
+Ltac mk_get S :=
+  match S with
+  | list go_Entry => constr:(fun s : S => s)
+  | (?A * ?B)%type => let g := mk_get A in constr:(fun s : S => g (fst s))
+  | (?A * ?B)%type => let g := mk_get B in constr:(fun s : S => g (snd s))
+  end.
+
+Ltac mk_inv S rgx :=
+  lazymatch S with
+  | option (bytes -> bool) => constr:(fun s : S => s = rgx)
+  | (?A * ?B)%type => let a := mk_inv A rgx in let b := mk_inv B rgx in
+                      constr:(fun s : S => a (fst s) /\ b (snd s))
+  | _ => constr:(fun _ : S => True)
+  end.
+
+Ltac split_state :=
+  repeat match goal with p : (_ * _)%type |- _ => destruct p end;
+  cbn [fst snd] in *;
+  repeat match goal with H : _ /\ _ |- _ => destruct H end.
+
+Ltac finish_props :=
+  repeat match goal with
+         | |- _ /\ _ => split
+         | |- True => exact I
+         end;
+  first [reflexivity | lia | congruence].
+
+(** the result of the function from the collected list *)
+Definition page_out (es : list go_Entry) (o : Z) (nf : gerr) : list go_Entry * Z * gerr :=
+  match es with [] => ([], o, nf) | e :: l => (e :: l, o, ENil) end.
+
+(** lengths are non-negative: known to [lia] for every list variable *)
+Ltac pose_zlen :=
+  repeat match goal with
+         | l : list ?A |- _ =>
+             lazymatch goal with
+             | _ : 0 <= zlen l |- _ => fail
+             | _ => pose proof (zlen_nonneg' l)
+             end
+         end.
+
+(** a list variable whose length is 0 (however the source tests it) is [[]] *)
+Ltac lists_nil :=
+  pose_zlen;
+  repeat match goal with
+         | l : list _ |- _ =>
+             let H := fresh in
+             let x0 := fresh "x" in
+             let l0 := fresh "l" in
+             assert (H : zlen l = 0) by lia;
+             destruct l as [|x0 l0];
+             [clear H | exfalso; pose proof (zlen_nonneg' l0); rewrite zlen_cons1 in H; lia]
+         end.
+
+(** the loop of pageEntries, its slice and what follows it, for a goal
+    [... all[o:] ... = GOk (page_out (page_take keep lim 0 (skipn coff all)) coff nf)] *)
+Ltac page_main all prefix rgx off lim nf :=
+  (* all[off:] *)
+  (match goal with |- context [gslice all ?o ?h] =>
+     replace (Z.min (Z.max off 0) (zlen all)) with o by lia;
+     rewrite (gslice_tail' all o h) by lia
+   end);
+  go_simpl;
+  (* the loop *)
+  (match goal with
+   | |- context [grange ?bd ?ix ?ls ?st0] =>
+       let S := type of st0 in
+       let g := mk_get S in
+       let p := mk_inv S rgx in
+       let s' := fresh "s'" in
+       let Hg := fresh "Hg" in
+       let HP := fresh "HP" in
+       let Hget := fresh "Hget" in
+       destruct (grange_page_sem bd g p (rx_ok rgx prefix) lim ls ix st0)
+         as [s' [Hg [HP Hget]]];
+       [ let i := fresh "i" in let x := fresh "x" in let s := fresh "s" in let Hs := fresh "Hs" in
+         let m := fresh "m" in let Hi := fresh "Hi" in
+         intros i x s Hi Hs; rewrite ?(gidx_nth _ _ _ Hi); go_simpl;
+         cbv beta in Hs |- *; unfold page_step_ok, page_stop, rx_ok;
+         split_state; subst;
+         pose proof (zlen_nonneg' (A:=go_Entry));
+         destruct rgx as [m|]; go_simpl;
+         [ destruct (m (trim_prefix (Entry_Key x) prefix)) eqn:? | ];
+         go_cases;
+         (eexists; split; [reflexivity|]); cbv beta iota; go_simpl; finish_props
+       | cbv beta; cbn [fst snd]; finish_props
+       | rewrite Hg; clear Hg;
+         (* the result *)
+         go_simpl; cbv beta in HP, Hget; split_state;
+         change (zlen (@nil go_Entry)) with 0 in *; cbn [app] in *; subst;
+         unfold page_out;
+         (match goal with |- context [page_take ?k ?l ?h ?r] =>
+            let e0 := fresh "e" in let r0 := fresh "r" in
+            destruct (page_take k l h r) as [|e0 r0]; [| pose proof (zlen_nonneg' r0)] end);
+         rewrite ?zlen_cons1, ?zlen_nil_0;
+         go_cases;
+         first [ reflexivity | destruct nf; cbn [err_is_nil] in *; first [discriminate | reflexivity] ] ]
+   end).
+
+(** a return before the loop (a fast path for a case in which the page is known to be empty) *)
+Ltac page_early :=
+  lists_nil; change (zlen (@nil go_Entry)) with 0 in *;
+  rewrite page_take_spec; rewrite ?skipn_nil; cbn [filter]; rewrite ?firstn_nil;
+  unfold page_out; go_cases; cbv beta iota;
+  repeat f_equal; lia.
+
 Theorem go_pageEntries_eq : forall all prefix rgx off lim nf,
   go_pageEntries all prefix rgx off lim nf =
   GOk (match fst (page_spec all prefix rgx off lim) with
@@ -104,35 +332,18 @@ Theorem go_pageEntries_eq : forall all prefix rgx off lim nf,
 Proof.
   intros all prefix rgx off lim nf.
   pose proof (zlen_nonneg' all) as Hall.
-  unfold page_spec. cbv zeta. cbn [fst snd].
-  unfold go_pageEntries. cbv zeta.
-  (* the two clamps of the offset *)
-  destruct (off <? 0) eqn:H0; cbn [gbind];
-    [apply Z.ltb_lt in H0 | apply Z.ltb_ge in H0];
-    (match goal with |- context [zlen all <? ?o] => destruct (zlen all <? o) eqn:H1 end);
-    cbn [gbind]; [apply Z.ltb_lt in H1 | apply Z.ltb_ge in H1 | apply Z.ltb_lt in H1 | apply Z.ltb_ge in H1];
-    (match goal with |- context [gslice all ?o _] =>
-       replace (Z.min (Z.max off 0) (zlen all)) with o by lia;
-       rewrite (gslice_tail all o) by lia
-     end);
-    cbn [gbind];
-    (match goal with
-     | |- context [grange ?bd ?ix ?ls ?st0] =>
-         destruct (grange_page bd snd (fun s x => (fst s, snd s ++ [x])) (fun s => fst s = rgx)
-                     (rx_ok rgx prefix) lim) with (l := ls) (i := ix) (s := st0)
-           as [s' [Hg [HP Hget]]];
-         [ intros i x [r es] Hr; cbn [fst snd] in Hr |- *; subst r;
-           destruct (negb (lim =? -1) && (lim <=? zlen es)); [reflexivity|];
-           destruct rgx as [m|]; cbn [rx_is_nil negb grx_match gbind rx_ok];
-           [destruct (m _)|]; reflexivity
-         | intros [r es] x Hr; cbn [fst snd] in *; split; [exact Hr|reflexivity]
-         | reflexivity
-         | rewrite Hg; clear Hg ]
-     end);
-    cbn [gbind]; destruct s' as [r es]; cbn [fst snd] in *; subst r;
-    rewrite app_nil_l, zlen_nil_0, page_take_spec in Hget; subst es;
-    (match goal with |- context [zlen ?X =? 0] => destruct X eqn:HX end);
-    reflexivity.
+  unfold page_spec. cbv zeta. cbn [fst snd]. rewrite <- page_take_spec.
+  change (go_pageEntries all prefix rgx off lim nf =
+          GOk (page_out (page_take (rx_ok rgx prefix) lim 0
+                           (skipn (Z.to_nat (Z.min (Z.max off 0) (zlen all))) all))
+                        (Z.min (Z.max off 0) (zlen all)) nf)).
+  unfold go_pageEntries. cbv zeta. rewrite ?gmake_0.
+  (* the clamps of the offset: every closed test before the loop *)
+  go_cases;
+  lazymatch goal with
+  | |- context [grange _ _ _ _] => page_main all prefix rgx off lim nf
+  | _ => page_early
+  end.
 Qed.
 Print Assumptions go_pageEntries_eq.
 
